@@ -134,7 +134,7 @@ Theorem C06_gen_verifyTimestamp_equiv : forall (D : deps), add_is_plus D ->
     outcome_ok outcome env lvl ->
     let si := EnvelopeContent_SignerInfo _ env in
     scheme_str si = "notary.x509" ->
-    store_agrees (d_C D) store stores db -> dep_contract D r si ->
+    store_agrees (d_C D) store stores db -> dep_contract D si ->
     exists e, g_verifyTimestamp D policy stores sv store r outcome = Some e
               /\ res_rel (validator_err D r si) (verify_timestamp (model_input D stores sv r db si aexp ats)) e.
 Proof. exact g_verifyTimestamp_equiv. Qed.
@@ -146,7 +146,7 @@ Theorem C06_gen_verifyAuthenticTimestamp_equiv : forall (D : deps), add_is_plus 
   forall policy stores sv (store : store_t D) (r : validator_t D) db outcome env lvl aexp ats,
     outcome_ok outcome env lvl ->
     let si := EnvelopeContent_SignerInfo _ env in
-    (scheme_str si = "notary.x509" -> store_agrees (d_C D) store stores db /\ dep_contract D r si) ->
+    (scheme_str si = "notary.x509" -> store_agrees (d_C D) store stores db /\ dep_contract D si) ->
     exists e, g_verifyAuthenticTimestamp D policy stores sv store r outcome = Some (ts_result lvl e)
               /\ res_rel (validator_err D r si) (verify_authentic_timestamp (model_input D stores sv r db si aexp ats)) e.
 Proof. exact g_verifyAuthenticTimestamp_equiv. Qed.
@@ -161,7 +161,7 @@ Theorem C06_gen_passes_only_if : forall (D : deps), add_is_plus D ->
     outcome_ok outcome env lvl ->
     let si := EnvelopeContent_SignerInfo _ env in
     let i := model_input D stores sv r db si aexp ats in
-    (scheme_str si = "notary.x509" -> store_agrees (d_C D) store stores db /\ dep_contract D r si) ->
+    (scheme_str si = "notary.x509" -> store_agrees (d_C D) store stores db /\ dep_contract D si) ->
     g_verifyAuthenticTimestamp D policy stores sv store r outcome = Some (ts_result lvl None) ->
     (scheme_str si <> "notary.x509" ->
      Forall (fun c => d_nbf D c <= SignedAttributes_SigningTime (SignerInfo_SignedAttributes _ si) <= d_naf D c)
@@ -195,7 +195,7 @@ Theorem C06_gen_x509_no_tsa_iff : forall (D : deps), add_is_plus D ->
     outcome_ok outcome env lvl ->
     let si := EnvelopeContent_SignerInfo _ env in
     let i := model_input D stores sv r db si aexp ats in
-    store_agrees (d_C D) store stores db -> dep_contract D r si ->
+    store_agrees (d_C D) store stores db -> dep_contract D si ->
     g_verifyAuthenticTimestamp D policy stores sv store r outcome = Some (ts_result lvl e) ->
     forallb (contains_byte colon) stores = true -> scheme_str si = "notary.x509" -> ~ Applies i ->
     (e = None <-> Forall (fun c => d_nbf D c <= d_now D <= d_naf D c) (SignerInfo_CertificateChain _ si)).
@@ -211,7 +211,7 @@ Theorem C06_gen_x509_tsa_iff : forall (D : deps), add_is_plus D ->
     outcome_ok outcome env lvl ->
     let si := EnvelopeContent_SignerInfo _ env in
     let i := model_input D stores sv r db si aexp ats in
-    store_agrees (d_C D) store stores db -> dep_contract D r si ->
+    store_agrees (d_C D) store stores db -> dep_contract D si ->
     g_verifyAuthenticTimestamp D policy stores sv store r outcome = Some (ts_result lvl e) ->
     forallb (contains_byte colon) stores = true -> scheme_str si = "notary.x509" -> Applies i ->
     (e = None <-> Token_ok i).
